@@ -60,8 +60,8 @@ theorem c16_rejects_bad_feature_gate_on_update (env : Env) (known : List Known) 
   simp [featureGateOK, ha, hne, hbad] at hg
 
 /-- `Admit`'s defaulting is idempotent -/
-theorem c16_admit_idempotent (c : Cluster) : admit (admit c) = admit c := by
-  unfold admit
+theorem c16_admission_defaults_idempotent (c : Cluster) : admitObject (admitObject c) = admitObject c := by
+  unfold admitObject
   simp only [List.map_map]
   congr 1
   apply List.map_congr_left
@@ -69,11 +69,11 @@ theorem c16_admit_idempotent (c : Cluster) : admit (admit c) = admit c := by
   by_cases h : p.strategy = [] <;> simp [h]
 
 /-- ... and changes nothing in an object that is valid as submitted -/
-theorem c16_admit_valid_unchanged (env : Env) (known : List Known) (c : Cluster) (h : valid env known c = true) :
-    admit c = c := by
+theorem c16_admission_defaults_keep_valid_object (env : Env) (known : List Known) (c : Cluster) (h : valid env known c = true) :
+    admitObject c = c := by
   simp only [valid, formOK, Bool.and_eq_true, decide_eq_true_eq, List.all_eq_true] at h
   have hp := h.1.1.2.2
-  unfold admit
+  unfold admitObject
   have : c.policies.map (fun p => if p.strategy = [] then { p with strategy := sRoundRobin } else p) = c.policies := by
     conv => rhs; rw [← List.map_id c.policies]
     apply List.map_congr_left
